@@ -111,6 +111,8 @@ class Method(Variable):  # i.e. TypeBound procedure
         return None
 
     def resolve_link(self, obj_tree):
+        # The target may have disappeared since the link was last resolved
+        self.link_obj = None
         if self.link_name is None:
             return
         if self.parent is not None:
